@@ -121,7 +121,7 @@ Proof.
   destruct (Z.ltb_spec v (Bw w * Bw w)) as [Hsmall|Hlarge].
   - f_equal. destruct (Z.eqb_spec (chunk_count v cb) 0) as [E0|N0]; [rewrite E0; reflexivity|].
     destruct (Z.eqb_spec (chunk_count v cb) 1) as [E1|N1]; [|reflexivity].
-    rewrite E1. cbn [Z.to_nat Pos.to_nat Pos.iter_op seq map Z.of_nat]. rewrite Z.mul_0_l, Z.pow_0_r, Z.div_1_r.
+    rewrite E1. change (Z.to_nat 1) with 1%nat. cbn [seq map]. change (Z.of_nat 0) with 0. rewrite Z.mul_0_l, Z.pow_0_r, Z.div_1_r.
     f_equal. symmetry. apply Z.mod_small. split; [lia|].
     apply Z.lt_le_trans with (2 ^ blen v); [lia|]. apply Z.pow_le_mono_r; [lia|].
     unfold chunk_count in E1.
